@@ -5,6 +5,7 @@ mod c03;
 mod c04;
 mod c06;
 mod c07;
+mod c08;
 mod c11;
 mod c12;
 mod c15;
@@ -28,7 +29,7 @@ fn main() {
         return;
     }
     if args.len() < 3 {
-        eprintln!("usage: e2elab <C03|C04|C07|C11|C12|C15|C16|C17> <quick|thorough|replay> [file]");
+        eprintln!("usage: e2elab <C03|C04|C06|C07|C08|C11|C12|C15|C16|C17> <quick|thorough|replay> [file]");
         std::process::exit(2);
     }
     let id = args[1].clone();
@@ -53,12 +54,13 @@ fn main() {
                 "C04" => c04::run(&run_tier, replaying).await,
                 "C06" => c06::run(&run_tier, replaying).await,
                 "C07" => c07::run(&run_tier, replaying).await,
+                "C08" => c08::run(&run_tier, replaying).await,
                 "C11" => c11::run(&run_tier, replaying).await,
                 "C12" => c12::run(&run_tier, replaying).await,
                 "C15" => c15::run(&run_tier, replaying).await,
                 "C16" => c16::run(&run_tier, replaying).await,
                 "C17" => c17::run(&run_tier, replaying).await,
-                _ => machinery_failure("e2elab serves C03 C04 C07 C11 C12 C15 C16 C17"),
+                _ => machinery_failure("e2elab serves C03 C04 C06 C07 C08 C11 C12 C15 C16 C17"),
             }
         })
     }));
